@@ -44,7 +44,9 @@ def main():
             rc2, out2 = sh(f"sh {runsh} 2>&1", cwd=os.path.dirname(runsh)); p2 = f2 = 0
             democmd = f"sh {runsh} (builds the program against /tmp/wt/{P} in three feature configurations and diffs the transcripts)"
         else:
-            if "minicbor-serde/tests" in demo_txt:
+            if "minicbor-io/tests" in demo_txt:
+                dst_demo, democmd = "minicbor-io/tests/seed_demo.rs", "cargo test -p minicbor-io --test seed_demo --offline"
+            elif "minicbor-serde/tests" in demo_txt:
                 dst_demo, democmd = "minicbor-serde/tests/seed_demo.rs", "cargo test -p minicbor-serde --features std --test seed_demo --offline"
             else:
                 dst_demo, democmd = "minicbor-tests/tests/seed_demo.rs", "cargo test -p minicbor-tests --features std,derive --test seed_demo --offline"
